@@ -134,7 +134,7 @@ Proof.
     + destruct (I_present c m a I y h0 G0 D0) as [P1 P2]. rewrite Ec. split.
       * intros p Hp. apply (shape_present m m' p (S p)), P1, Hp.
       * intros o Ho Hs. apply (shape_present m m' o (S o)), (P2 o Ho Hs).
-    + rewrite Ec. split; [|intros o []].
+    + rewrite Ec. split; [|intros o X; discriminate X].
       intros p Hp. apply (shape_present m m' p (S p)).
       (* a scope without holder that is being charged: it is static and its parents exist *)
       unfold a_par in Hp. rewrite G0 in Hp.
